@@ -97,7 +97,8 @@ func Discharge(fr *FuncResult, dir string, batchMs, singleMs int, stats *SolveSt
 			// satisfiable queries with quantified axioms rarely come back as sat: do not wait for them
 			b.WriteString("(set-option :timeout 300)\n")
 		}
-		fmt.Fprintf(&b, "(push 1)\n(assert %s)\n(check-sat)\n(pop 1)\n", goalTerm(o, false))
+		// obligations with a recorded known finding are first tried under the witness exclusion
+		fmt.Fprintf(&b, "(push 1)\n(assert %s)\n(check-sat)\n(pop 1)\n", goalTerm(o, o.Excl != ""))
 	}
 	file := base + ".batch.smt2"
 	os.WriteFile(file, []byte(b.String()), 0o644)
@@ -141,7 +142,7 @@ func Discharge(fr *FuncResult, dir string, batchMs, singleMs int, stats *SolveSt
 			}
 			continue
 		}
-		if a == want {
+		if a == want && o.Excl == "" {
 			o.Result = "proved"
 			o.Solver = solvers[0].Name
 			stats.mu.Lock()
@@ -149,15 +150,25 @@ func Discharge(fr *FuncResult, dir string, batchMs, singleMs int, stats *SolveSt
 			stats.mu.Unlock()
 			continue
 		}
+		if o.Excl != "" {
+			// known finding: proved outside the witness?  then see whether the finding itself is still there
+			if a != want {
+				single(fr, o, base, i, singleMs, stats, true)
+			} else {
+				o.Result = "proved"
+				o.Solver = solvers[0].Name
+			}
+			if o.Result == "proved" {
+				probe := *o
+				probe.Result, probe.Model = "", ""
+				single(fr, &probe, base, i, 2500, stats, false)
+				o.ExclOK = probe.Result != "proved"
+				continue
+			}
+			continue
+		}
 		// 2. single query, portfolio
 		single(fr, o, base, i, singleMs, stats, false)
-		if o.Result != "proved" && o.Excl != "" {
-			// known finding: retry under the witness exclusion
-			single(fr, o, base, i, singleMs, stats, true)
-			if o.Result == "proved" {
-				o.ExclOK = true
-			}
-		}
 		if o.Result != "proved" && setupErr != "" && o.Model == "" {
 			o.Model = setupErr
 		}
